@@ -963,6 +963,24 @@ namespace hs
             return;
         Req r = array ? sanitize(*S, int(op.arg(1)), true, op.arg(2), op.arg(3), op.arg(4)) :
                         sanitize(*S, int(op.arg(1)), false, 1, op.arg(2), op.arg(3));
+        // an optional last argument asks for a node exactly at the documented limit (pools: the node size,
+        // collections: max_node_size())
+        if (!array && op.arg(4) == 1)
+        {
+            auto kind = S->o->caps.kind;
+            if (kind == K_COLL)
+            {
+                r.size = S->o->max_node();
+                while (r.align > alignment_for(r.size))
+                    r.align >>= 1;
+                stats().hit("reach.node_exactly_at_max_node_size");
+            }
+            else if (kind == K_POOL)
+            {
+                r.size = S->o->reading(4);
+                stats().hit("reach.node_exactly_at_max_node_size");
+            }
+        }
         do_alloc(*S, index_of(*S), r, op.fail, nullptr, false);
     }
 
